@@ -65,6 +65,10 @@ pub struct DlCfg {
     /// before the transfer, the client tries to RESUME an older one: a request for a block far
     /// beyond the end of the body (the handler can only answer with an error)
     pub stale_resume_first: Option<(u32, u8)>,
+    /// after the transfer is complete, the client asks once more for a middle block at the size that
+    /// was used; the application's reply has meanwhile gained options (more overhead) and the
+    /// request carries an 8-byte token.  Only on a server that is dropped afterwards.
+    pub late_block_probe: bool,
     pub noise_between_blocks: usize,
     /// requests on other keys handled while the first request of this transfer is still with the application
     pub overlap_first_exchange: usize,
@@ -75,7 +79,7 @@ pub struct DlCfg {
 
 impl DlCfg {
     pub fn base() -> DlCfg {
-        DlCfg { ep: 0, path: vec![], body: vec![], reply_opts: vec![], tkl: 0, strategy: Strategy::Follow, typ: 0, abandon_after: None, vary_tkl: false, code: 1, upload: None, req_payload: vec![], noise_between_blocks: 0, overlap_first_exchange: 0, skip_release_probes: false, stale_resume_first: None }
+        DlCfg { ep: 0, path: vec![], body: vec![], reply_opts: vec![], tkl: 0, strategy: Strategy::Follow, typ: 0, abandon_after: None, vary_tkl: false, code: 1, upload: None, req_payload: vec![], noise_between_blocks: 0, overlap_first_exchange: 0, skip_release_probes: false, stale_resume_first: None, late_block_probe: false }
     }
 }
 
@@ -480,6 +484,45 @@ pub fn download(server: &mut Server, cfg: &DlCfg, ids: &mut Ids) -> (Vec<Finding
             _ => bail!(Scope::Transfer, "fresh-request-after-transfer", "{}", e3.summary()),
         }
     }
+    if cfg.late_block_probe && st.fragmented {
+        if let Some(szx) = st.chosen_szx {
+            let size = szx_size(szx);
+            if cfg.body.len() > 3 * size {
+                let mut grown = cfg.reply_opts.clone();
+                grown.push((4, vec![0xE7; 8]));
+                grown.push((14, vec![0x3c]));
+                grown.push((2000, vec![0x67; 24]));
+                let new_overhead = reply_overhead(8, &grown);
+                let body = cfg.body.clone();
+                let g2 = grown.clone();
+                let mut bigger = move |_r: &coap_lite::CoapRequest<CEp>| AppReply { code: 0x45, options: g2.clone(), payload: body.clone() };
+                let mut r = ReqSpec::new(cfg.code, &path);
+                let (mid, _) = ids.next(8);
+                r.mid = mid;
+                r.token = vec![0xAB; 8];
+                r.block2 = Some((1, false, szx));
+                let e4 = server.exchange(&r.bytes(), cfg.ep, &mut bigger);
+                if let Step::Panic(p) = &e4.intercept_request {
+                    bail!(Scope::Transfer, &p.sig(), "{}", p.text());
+                }
+                if let Some(Step::Panic(p)) = &e4.intercept_response {
+                    bail!(Scope::Transfer, &p.sig(), "{}", p.text());
+                }
+                if let (Some(l), Some(reply)) = (e4.reply_len, &e4.reply) {
+                    if let Some(raw) = reply.get_first_option(CoapOption::Block2) {
+                        if budget >= new_overhead + 28 && l > budget {
+                            out.push(f(Scope::Budget, "late-block-reply-exceeds-budget", format!("after the transfer a request for block 1 of size {} is answered with {} bytes, budget {} (reply overhead grew to {})", size, l, budget, new_overhead)));
+                        }
+                        if let Some((_, _, sr)) = parse_block(raw) {
+                            if sr > szx {
+                                out.push(f(Scope::Budget, "block-size-larger-than-client-asked", format!("late block request at size {} answered with size {}", size, szx_size(sr))));
+                            }
+                        }
+                    }
+                }
+            }
+        }
+    }
     (out, st)
 }
 
@@ -847,7 +890,7 @@ pub fn run_sessions(rep: &mut Report, r: &mut Rng, n: u64, level: u32, scope: Sc
                 2 => Strategy::Early(r.below(7) as u8),
                 _ => Strategy::Reduce { early: None, after: r.urange(1, 2), new_szx: r.below(2) as u8 },
             };
-            let cfg = DlCfg { ep: 7, path: vec!["sess".into()], body: body_bytes(r.next_u64(), blen), reply_opts: opts.clone(), tkl, strategy, typ: 0, abandon_after: None, vary_tkl: r.chance(1, 3), code, upload, req_payload: if code != 1 && r.bool() { b"q".to_vec() } else { vec![] }, noise_between_blocks: 0, overlap_first_exchange: 0, skip_release_probes: t + 1 < ntx && r.chance(2, 3), stale_resume_first: if r.chance(1, 8) { Some((r.urange(3, 3000) as u32, r.below(7) as u8)) } else { None } };
+            let cfg = DlCfg { ep: 7, path: vec!["sess".into()], body: body_bytes(r.next_u64(), blen), reply_opts: opts.clone(), tkl, strategy, typ: 0, abandon_after: None, vary_tkl: r.chance(1, 3), code, upload, req_payload: if code != 1 && r.bool() { b"q".to_vec() } else { vec![] }, noise_between_blocks: 0, overlap_first_exchange: 0, skip_release_probes: t + 1 < ntx && r.chance(2, 3), stale_resume_first: if r.chance(1, 8) { Some((r.urange(3, 3000) as u32, r.below(7) as u8)) } else { None } , late_block_probe: false };
             story.push(format!("#{} {} upload {:?} reply {}B strategy {:?} vary_tkl {}", t, coap_lite::MessageClass::from(code), cfg.upload.as_ref().map(|u| (u.0.len(), szx_size(u.1))), blen, cfg.strategy, cfg.vary_tkl));
             let witness = format!("session on one handler and key, budget {} reply options {:?}: {}", m, opts.iter().map(|o| o.0).collect::<Vec<_>>(), story.join(" ; "));
             set_case_str(&witness);
@@ -1075,7 +1118,7 @@ pub fn busy_server(rep: &mut Report, r: &mut Rng, ids: &mut Ids, scope: Scope, l
         let slack = if variant >= 1 { szx_size(szx) + 40 + r.usize_below(100) } else { r.usize_below(200) };
         let m = (overhead + 12 + 32 + szx_size(szx) + slack).min(1280);
         // (longer than the budget for two out of three: no way around fragmenting it)
-        let len = szx_size(szx) * 3 + r.usize_below(40) + 1 + if variant >= 1 { m } else { 0 };
+        let len = szx_size(szx) * 3 + r.usize_below(40) + 1 + if variant >= 1 { m.max(400) } else { 0 };
         let bpath: Vec<String> = match r.below(5) {
             0 => vec!["busy".into()],
             1 => vec!["fw".into(), "v2".into()],
@@ -1087,6 +1130,20 @@ pub fn busy_server(rep: &mut Report, r: &mut Rng, ids: &mut Ids, scope: Scope, l
         let witness = format!("busy server: budget {} body {}B client block size {}, {} requests on other keys between block requests, {} while the first request is with the application", m, len, szx_size(szx), between_blocks, overlap);
         set_case_str(&witness);
         let mut server = Server::new(m, LONG);
+        // other clients' downloads that are already open (and stay unfinished) when the observed one starts
+        // (bodies of decreasing size - 20000, 5000, 1000, 300 bytes - so that whatever total a handler
+        // might be willing to hold is filled to within a few hundred bytes)
+        let open_before = [0u32, 14, 100][variant as usize % 3];
+        for w in 0..open_before {
+            let mut q = ReqSpec::new(1, &["open", &format!("{}", w)]);
+            q.mid = w as u16;
+            q.token = vec![w as u8];
+            q.block2 = Some((0, false, 0));
+            let blen = if open_before <= 14 || w < 40 { 20000 } else if w < 60 { 5000 } else if w < 80 { 1000 } else { 300 };
+            let mut big = move |_r: &coap_lite::CoapRequest<CEp>| AppReply::content(vec![0x4f; blen]);
+            let _ = server.exchange(&q.bytes(), 3000 + w, &mut big);
+        }
+        let witness = format!("{}; {} unfinished 20000-byte downloads of other clients open beforehand", witness, open_before);
         let (findings, st) = download(&mut server, &cfg, ids);
         let findings: Vec<Finding> = findings.into_iter().map(|mut x| {
             x.sig = format!("busy-server:{}", x.sig);
@@ -1560,7 +1617,7 @@ pub fn run_c10(ctx: &mut Ctx) {
         if m > 1280 {
             continue;
         }
-        let cfg = DlCfg { ep: 2, path: vec![String::from_utf8(vec![b'x'; plen]).unwrap()], body: body_bytes(r.next_u64(), len), reply_opts, tkl, strategy, typ: r.below(2) as u8, abandon_after: None, vary_tkl: false, stale_resume_first: if r.chance(1, 5) { Some((r.urange(3, 3000) as u32, r.below(7) as u8)) } else { None }, ..DlCfg::base() };
+        let cfg = DlCfg { ep: 2, path: vec![String::from_utf8(vec![b'x'; plen]).unwrap()], body: body_bytes(r.next_u64(), len), reply_opts, tkl, strategy, typ: r.below(2) as u8, abandon_after: None, vary_tkl: false, stale_resume_first: if r.chance(1, 5) { Some((r.urange(3, 3000) as u32, r.below(7) as u8)) } else { None }, late_block_probe: r.chance(1, 2), ..DlCfg::base() };
         if cfg.stale_resume_first.is_some() {
             rep.count("transfers_after_a_stale_resume_attempt");
         }
